@@ -97,6 +97,11 @@ func genC05Msg(t *Tape, k int, body int) c05Msg {
 		rem -= len(ab)
 		first = false
 	}
+	if n := len(m.AVPs); n > 0 && len(m.AVPs[n-1].Data)%4 != 0 && m.AVPs[n-1].Group == nil && t.Chance(1, 4) {
+		// the last AVP comes without its padding and the message declares the unpadded
+		// length (not a multiple of four): accepted on input, and exactly that many bytes are its
+		m.TrimPad = true
+	}
 	return c05Msg{ref: m, bytes: m.Bytes()}
 }
 
@@ -479,6 +484,9 @@ func compareMsg(m *diam.Message, want c05Msg) string {
 	b, err := m.Serialize()
 	if err != nil {
 		return "re-serialisation failed: " + err.Error()
+	}
+	if w.TrimPad {
+		return "" // (sent without the final padding: the re-serialised form legitimately differs)
 	}
 	if !bytes.Equal(b, want.bytes) {
 		return "re-serialised bytes differ from the bytes sent"
